@@ -2,7 +2,7 @@
 
 import itertools
 import numpy as np
-from atomica.model import SourceCompartment, SinkCompartment, JunctionCompartment, TimedCompartment, TimedLink
+from atomica.model import BadInitialization, SourceCompartment, SinkCompartment, JunctionCompartment, TimedCompartment, TimedLink
 
 from mc import simspace, oracles
 from mc.oracles import V
@@ -40,7 +40,28 @@ def negfn(tier):
             yield spec
 
 
+def zero_by_subtraction(tier):
+    """a compartment whose initial size is determined by subtraction of entered quantities and comes out as 0 up to rounding error, or as a
+    tiny negative number inside the initialisation tolerance (the library accepts such data and starts the compartment at 0), with a
+    number-type / rate-type outflow from that compartment"""
+    for dt in (1.0, 0.25):
+        for A, X in ((1000.0, 600.0), (0.3, 0.1), (1e6 / 3, 1e5 / 7), (123.456, 23.456), (50.0, 50.0)):
+            for off in (0.0, -3e-7, -9e-7, 3e-7):
+                for fmt, val in (("number", 20.0), ("rate", 0.5), ("probability", 4 / dt)):
+                    spec = simspace.base_spec(["a", "b", "c"], dt)
+                    for c in spec["comps"]:
+                        c.pop("init", None)
+                        if c["name"] == "a":
+                            c["init"] = X
+                    spec["characs"] += [dict(name="abc", comps=["a", "b", "c"], val=A), dict(name="ab", comps=["a", "b"], val=X + off)]
+                    spec["pars"] += [dict(name="out", fmt=fmt, val=val), dict(name="bk", fmt="rate", val=0.2)]
+                    spec["links"] += [["b", "c", "out"], ["c", "a", "bk"]]
+                    spec["tag"] = "zero_by_subtraction"
+                    yield spec
+
+
 def cases(tier):
+    yield from zero_by_subtraction(tier)
     yield from negfn(tier)
     yield from simspace.all_sim(tier)
 
@@ -134,7 +155,12 @@ def run_case(spec):
     g = spec.get("gadget")
     if g is not None and not g["ok"]:
         return dict(states=0, transitions=0, nontrivial=False, violations=[], counters=dict(out_of_domain=1))
-    w, r = run_spec(spec)
+    try:
+        w, r = run_spec(spec)
+    except BadInitialization:
+        if spec.get("tag") != "zero_by_subtraction":
+            raise
+        return dict(states=0, transitions=0, nontrivial=False, violations=[], counters=dict(initialisation_refused=1))
     T = len(r.model.t)
     vs = oracles.sane(r)
     sv, rescaled, negative = scaling(r)
